@@ -163,6 +163,13 @@ const knownSdInsideFailingStart = "shutdown-inside-failing-start"
 // the read and a Shutdown whose context has already expired) is not judged on that point.
 const knownLateHandover = "handler-started-after-shutdown-gave-up"
 
+// knownStaleReader (round 10): readTCP / readUDP / readPacketConn arm the read deadline "if
+// srv.started" - the flag of whatever run the Server value is on - so a Reader of a run that has been
+// shut down, entered before and continued after the same value was started again, overwrites the past
+// deadline of its Shutdown and sleeps for ReadTimeout. While it is live, a restart during drain /
+// during Shutdown is generated without plan waits that hold a Reader at its entry.
+const knownStaleReader = "reader-of-shut-down-run-rearms-deadline-after-restart"
+
 type Client struct {
 	Reqs     []Req
 	Close    string // end (keeps the conn until teardown) | afterRecv | afterSend (closes without reading the last reply)
@@ -451,6 +458,18 @@ func drawRestart(t *rapid.T, s *Scenario) {
 			s.Ctx, s.CtxAt, s.CtxAPI = "background", "", rapid.Bool().Draw(t, "shuttingCtxAPI")
 		}
 		dropMisuse(s, "secondShutdown")
+		if pbt.Known(knownStaleReader) {
+			// no Reader of run 1 is held at its entry across the second start
+			var ws []memnet.Wait
+			for _, w := range s.Waits {
+				if strings.HasPrefix(w.At, "reader.enter(") {
+					pbt.Excluded(knownStaleReader)
+					continue
+				}
+				ws = append(ws, w)
+			}
+			s.Waits = ws
+		}
 	}
 	s.Restart = rs
 }
